@@ -4,6 +4,7 @@ __all__ = ['CSSSerializer', 'Preferences']
 
 import codecs
 import decimal
+import functools
 import re
 
 import cssutils
@@ -29,6 +30,20 @@ def _escapecss(e):
 
 
 codecs.register_error('escapecss', _escapecss)
+
+
+@functools.lru_cache(maxsize=4096)
+def _readsdifferently(encoding, char):
+    "if `char` can be encoded but is not what its bytes are decoded as"
+    try:
+        return char.encode(encoding).decode(encoding) != char
+    except UnicodeError:
+        try:
+            char.encode(encoding)
+        except UnicodeError:
+            # lacking: escaped by the error handler anyway
+            return False
+        return True
 
 
 class Preferences:
@@ -450,6 +465,15 @@ class CSSSerializer:
             encoding = stylesheet.cssRules[0].encoding
         except (IndexError, AttributeError):
             encoding = 'UTF-8'
+
+        # a character which the encoding writes as bytes it reads as another
+        # character (shift_jis writes U+00A5 as 0x5C, a backslash) is escaped
+        # like one the encoding lacks
+        lossy = {c for c in set(text) if c > '\x7f' and _readsdifferently(encoding, c)}
+        if lossy:
+            text = ''.join(
+                '\\%X ' % ord(c) if c in lossy else c for c in text
+            )
 
         # TODO: py3 return b str but tests use unicode?
         return text.encode(encoding, 'escapecss')
